@@ -11,7 +11,8 @@ from gen_prog import make_sessions
 PROP = "C19"
 LEVEL = "other"
 MODULE = "PropC19"
-THEOREMS = ["C19_report_names_the_class", "C19_class_names_distinct"]
+THEOREMS = ["C19_report_names_the_class", "C19_class_names_distinct", "C19_error_attributed_to_executing_instruction",
+            "C19_binop_report_lists_the_operands", "C19_report_marks_the_failing_instruction", "C19_run_reports_the_failing_step"]
 
 CLASS_TEXT = {"zerodiv": "division by zero", "type": "type error", "nil": "nil error", "index": "index error",
               "arity": "arity mismatch", "conversion": "conversion error"}
